@@ -34,9 +34,36 @@ _IMPORTS = [("PW.model", "M_viewing"), ("PW.proofs", "P_vec"), ("PW.proofs", "P_
 # generic, shape-independent tie script: unfold both sides completely, compare entry by entry.
 _UNF = ("cbv [w2v_mat w2v_rot3 w2v_up w2v_left w2v_look basis_y ortho_mat ortho_mat_c ortho_zscale ortho_ztrans viewport_mat "
         "canvas_mat canvas_mat_c canvas_compose compose2 compose3 half default_near default_far nfrac app]; munf")
-_ENTRY = ("first [ reflexivity | ring | (field; nz) "
-          "| (repeat match goal with |- context [sqrt ?e] => let n := fresh \"n\" in generalize (sqrt e); intro n end; "
-          "first [ring | field; nz]) ]")
+_ENTRY = "first [ reflexivity | ring | (field; nz) ]"
+# square roots are abstracted once for the whole list equation (both sides carry syntactically equal radicands as
+# long as the code normalises/crosses the way the Vec.v combinators do)
+_GEN = ("repeat match goal with |- context [sqrt ?e] => let n := fresh \"n\" in generalize (sqrt e); intro n end")
+_ROB = """(* square roots: name the innermost ones, identify those whose radicands are equal as polynomials (so that a
+   re-association or sign rearrangement inside a norm does not break the tie), repeat outwards; then the reciprocals of
+   the roots become atoms so that `field` asks nothing about them *)
+Ltac name_inner_sqrts :=
+  repeat match goal with
+  | |- context [sqrt ?a] =>
+      lazymatch a with
+      | context [sqrt _] => fail
+      | _ => let n := fresh "sq" in set (n := sqrt a)
+      end
+  end.
+Ltac merge_named_sqrts :=
+  repeat match goal with
+  | n := sqrt ?a, m := sqrt ?b |- _ =>
+      let H := fresh "Hsq" in
+      assert (H : n = m) by (subst n m; apply f_equal; unfold Rdiv; ring);
+      clearbody n; subst n
+  end.
+Ltac abstract_sqrts :=
+  repeat (progress (name_inner_sqrts; merge_named_sqrts));
+  repeat match goal with n := sqrt _ |- _ => clearbody n end;
+  unfold Rdiv;
+  repeat match goal with
+  | n : R |- context [/ ?x] => constr_eq x n; let i := fresh "isq" in set (i := / n); clearbody i
+  end.
+"""
 _NZ = "Ltac nz := repeat split; try lra; try assumption; auto with real.\n"
 
 
@@ -55,9 +82,9 @@ def kernels():
     ks.append(Kernel(
         "w2v", {"p": [1.0, 2.0, 3.0], "t": [0.5, -1.0, 4.0], "u": [0.25, 1.0, 0.5]},
         lambda p, t, u: (world_to_view(p, t, u), world_to_view(p, t, u, inverse=True)),
-        _NZ + """Lemma {T}_ok : forall {vars} : R,
+        _NZ + _ROB + """Lemma {T}_ok : forall {vars} : R,
   {T} ROps {vars} = mlist (w2v_mat ROps %(P)s %(T)s %(U)s false) ++ mlist (w2v_mat ROps %(P)s %(T)s %(U)s true).
-Proof. intros. unfold {T}. %(unf)s. list_eq ltac:(%(entry)s). Qed.
+Proof. intros. unfold {T}. %(unf)s. abstract_sqrts. list_eq ltac:(%(entry)s). Qed.
 
 (* the property, about the matrices the source produced on this run *)
 Lemma {T}_property : forall {vars} : R,
@@ -69,14 +96,15 @@ Lemma {T}_property : forall {vars} : R,
     mapply_pt ROps f %(T)s = V3 0 0 (vdist ROps %(T)s %(P)s) /\\ 0 < vdist ROps %(T)s %(P)s /\\
     vx (mapply_vec ROps f %(U)s) = 0 /\\ 0 < vy (mapply_vec ROps f %(U)s).
 Proof.
-  intros {vars} H1 H2. eexists; eexists. split; [apply {T}_ok|].
+  intros {vars} H1 H2.
+  exists (w2v_mat ROps %(P)s %(T)s %(U)s false), (w2v_mat ROps %(P)s %(T)s %(U)s true).
+  split; [apply {T}_ok|].
+  split; [apply w2v_inverse_left; assumption|]. split; [apply w2v_inverse_right; assumption|].
+  split; [apply affine_w2v|]. split; [intros a b; apply w2v_isometry; assumption|].
+  split; [apply w2v_position_to_origin; assumption|].
   pose proof (w2v_target_on_pos_z _ _ _ H1 H2) as [A B]. pose proof (w2v_up_in_yz_pos_y _ _ _ H1 H2) as [C D].
-  repeat split; try assumption.
-  - apply w2v_inverse_left; assumption.
-  - apply w2v_inverse_right; assumption.
-  - intros a b. apply w2v_isometry; assumption.
-  - apply w2v_position_to_origin; assumption.
-Qed.""" % {"P": P, "T": T, "U": U, "unf": _UNF, "entry": _ENTRY},
+  split; [exact A|]. split; [exact B|]. split; [exact C|exact D].
+Qed.""" % {"P": P, "T": T, "U": U, "unf": _UNF, "entry": _ENTRY, "gen": _GEN},
         imports=_IMPORTS, timeout=200))
 
     # ---- orthographic -----------------------------------------------------------------------------------
@@ -86,7 +114,7 @@ Qed.""" % {"P": P, "T": T, "U": U, "unf": _UNF, "entry": _ENTRY},
                             view_to_orthographic_projection(w[0], h[0], nr[0], fr[0], inverse=True)),
         _NZ + """Lemma {T}_ok : forall {vars} : R, 0 < w0 -> 0 < h0 -> nr0 < fr0 ->
   {T} ROps {vars} = mlist (ortho_mat ROps w0 h0 nr0 fr0 false) ++ mlist (ortho_mat ROps w0 h0 nr0 fr0 true).
-Proof. intros. unfold {T}. %(unf)s. list_eq ltac:(%(entry)s). Qed.
+Proof. intros. unfold {T}. %(unf)s. %(gen)s. list_eq ltac:(%(entry)s). Qed.
 
 Lemma {T}_property : forall {vars} : R, 0 < w0 -> 0 < h0 -> nr0 < fr0 ->
   exists f i, {T} ROps {vars} = mlist f ++ mlist i /\\
@@ -95,14 +123,12 @@ Lemma {T}_property : forall {vars} : R, 0 < w0 -> 0 < h0 -> nr0 < fr0 ->
     (forall sx sy, mapply_pt ROps f (V3 (sx * (w0 / 2)) (sy * (h0 / 2)) (- nr0)) = V3 sx sy (-1) /\\
                    mapply_pt ROps f (V3 (sx * (w0 / 2)) (sy * (h0 / 2)) (- fr0)) = V3 sx sy 1).
 Proof.
-  intros {vars} Hw Hh Hnf. eexists; eexists. split; [apply {T}_ok; assumption|].
-  destruct (ortho_inverse w0 h0 nr0 fr0 Hw Hh Hnf) as [A B].
-  repeat split; try assumption.
-  - apply ortho_box_iff_cube; assumption.
-  - apply ortho_box_iff_cube; assumption.
-  - apply ortho_corners; assumption.
-  - apply ortho_corners; assumption.
-Qed.""" % {"unf": _UNF, "entry": _ENTRY},
+  intros {vars} Hw Hh Hnf.
+  exists (ortho_mat ROps w0 h0 nr0 fr0 false), (ortho_mat ROps w0 h0 nr0 fr0 true).
+  split; [apply {T}_ok; assumption|].
+  split; [exact (proj1 (ortho_inverse w0 h0 nr0 fr0 Hw Hh Hnf))|]. split; [exact (proj2 (ortho_inverse w0 h0 nr0 fr0 Hw Hh Hnf))|].
+  split; [intros p; exact (ortho_box_iff_cube w0 h0 nr0 fr0 p Hw Hh Hnf) | intros sx sy; exact (ortho_corners w0 h0 nr0 fr0 sx sy Hw Hh Hnf)].
+Qed.""" % {"unf": _UNF, "entry": _ENTRY, "gen": _GEN},
         imports=_IMPORTS))
 
     # ---- viewport ---------------------------------------------------------------------------------------
@@ -111,7 +137,7 @@ Qed.""" % {"unf": _UNF, "entry": _ENTRY},
         lambda a, b, c, d: (viewport_transform(a[0], b[0], c[0], d[0]), viewport_transform(a[0], b[0], c[0], d[0], inverse=True)),
         _NZ + """Lemma {T}_ok : forall {vars} : R, a0 <> c0 -> d0 <> b0 ->
   {T} ROps {vars} = mlist (viewport_mat ROps a0 b0 c0 d0 false) ++ mlist (viewport_mat ROps a0 b0 c0 d0 true).
-Proof. intros. unfold {T}. %(unf)s. list_eq ltac:(%(entry)s). Qed.
+Proof. intros. unfold {T}. %(unf)s. %(gen)s. list_eq ltac:(%(entry)s). Qed.
 
 (* a0 = x_right, b0 = y_bottom, c0 = x_left, d0 = y_top *)
 Lemma {T}_property : forall {vars} : R, a0 <> c0 -> d0 <> b0 ->
@@ -122,10 +148,12 @@ Lemma {T}_property : forall {vars} : R, a0 <> c0 -> d0 <> b0 ->
                mapply_pt ROps f (V3 (-1) 1 z) = V3 c0 d0 ((z + 1) / 2) /\\
                mapply_pt ROps f (V3 1 1 z) = V3 a0 d0 ((z + 1) / 2)).
 Proof.
-  intros {vars} H1 H2. eexists; eexists. split; [apply {T}_ok; assumption|].
-  destruct (viewport_inverse a0 b0 c0 d0 H1 H2) as [A B].
-  split; [exact A|]. split; [exact B|]. intros z. apply viewport_corners.
-Qed.""" % {"unf": _UNF, "entry": _ENTRY},
+  intros {vars} H1 H2.
+  exists (viewport_mat ROps a0 b0 c0 d0 false), (viewport_mat ROps a0 b0 c0 d0 true).
+  split; [apply {T}_ok; assumption|].
+  split; [exact (proj1 (viewport_inverse a0 b0 c0 d0 H1 H2))|]. split; [exact (proj2 (viewport_inverse a0 b0 c0 d0 H1 H2))|].
+  intros z. exact (viewport_corners a0 b0 c0 d0 z).
+Qed.""" % {"unf": _UNF, "entry": _ENTRY, "gen": _GEN},
         imports=_IMPORTS))
 
     # ---- canvas: three stages, default near/far are Python floats so the z entries are binary64 constants ---
@@ -133,19 +161,51 @@ Qed.""" % {"unf": _UNF, "entry": _ENTRY},
     zs_f, zt_f = -2 / (far - near), -(far + near) / (far - near)
     zs_i, zt_i = (far - near) / -2, (far + near) / (far - near)
     consts = {"zsf": _R(zs_f), "ztf": _R(zt_f), "zsi": _R(zs_i), "zti": _R(zt_i)}
+    def canvas_all(w, h, p, t, zm):
+        w, h, z = w[0], h[0], zm[0]
+        out = [world_to_canvas_orthographic_projection(w, h, p, t, zoom=z),
+               world_to_canvas_orthographic_projection(w, h, p, t, zoom=z, inverse=True)]
+        for inverse in (False, True):  # the three public stage functions, called the way the property describes
+            out += [world_to_view(position=p, target=t, inverse=inverse),
+                    view_to_orthographic_projection(width=w / z, height=h / z, inverse=inverse),
+                    viewport_transform(x_right=w, y_bottom=h, inverse=inverse)]
+        return tuple(out)
+
+    L = "({T} ROps {vars})"
     ks.append(Kernel(
-        "canvas", {"w": [640.0], "h": [480.0], "p": [1.0, 2.0, 3.0], "t": [0.5, -1.0, 4.0], "zm": [1.5]},
-        lambda w, h, p, t, zm: (world_to_canvas_orthographic_projection(w[0], h[0], p, t, zoom=zm[0]),
-                               world_to_canvas_orthographic_projection(w[0], h[0], p, t, zoom=zm[0], inverse=True)),
-        _NZ + """(* the z entries of the projection stage as the code computes them from near=0.1 (binary64), far=2000 *)
+        "canvas", {"w": [640.0], "h": [480.0], "p": [1.0, 2.0, 3.0], "t": [0.5, -1.0, 4.0], "zm": [1.5]}, canvas_all,
+        _NZ + _ROB + """(* outputs: canvas(inverse=False), canvas(inverse=True), then view / projection / viewport for inverse=False and for
+   inverse=True, all from ONE run of the code: segment k = entries 16k .. 16k+15 *)
+Definition m4l (l : list R) : mat4 R :=
+  match l with
+  | [a; b; c; d; e; f; g; h; i; j; k; l'; m; n; o; p] => M4 a b c d e f g h i j k l' m n o p
+  | _ => I4 ROps
+  end.
+Definition seg (k : nat) (l : list R) : list R := firstn 16 (skipn (16 * k) l).
+Ltac segunf := cbv [seg firstn skipn Nat.mul Nat.add m4l]; munf.
+
+(* 1. the property clause itself, on the matrices the code returned: the canvas matrix is the product of the three stage
+      matrices in order (view first), and for inverse=True the product of the stage inverses in reverse order *)
+Lemma {T}_compose : forall {vars} : R,
+  seg 0 %(L)s = mlist (mmul ROps (mmul ROps (m4l (seg 4 %(L)s)) (m4l (seg 3 %(L)s))) (m4l (seg 2 %(L)s))) /\\
+  seg 1 %(L)s = mlist (mmul ROps (mmul ROps (m4l (seg 5 %(L)s)) (m4l (seg 6 %(L)s))) (m4l (seg 7 %(L)s))).
+Proof. intros. unfold {T}. segunf. %(gen)s. split; list_eq ltac:(first [reflexivity | ring]). Qed.
+
+(* 2. the stages are the modelled ones, with width/zoom, height/zoom, the default up = y, the viewport (0,0)-(w,h), and the
+      z entries of the projection as the code computes them from near=0.1 (binary64), far=2000 *)
 Definition zsf : R := %(zsf)s.  Definition ztf : R := %(ztf)s.
 Definition zsi : R := %(zsi)s.  Definition zti : R := %(zti)s.
-Lemma {T}_ok : forall {vars} : R, 0 < w0 -> 0 < h0 -> 0 < zm0 ->
-  {T} ROps {vars} = mlist (canvas_mat_c ROps zsf ztf w0 h0 %(P)s %(T)s zm0 false)
-                 ++ mlist (canvas_mat_c ROps zsi zti w0 h0 %(P)s %(T)s zm0 true).
-Proof. intros. unfold {T}, zsf, ztf, zsi, zti. %(unf)s. list_eq ltac:(%(entry)s). Qed.
+Lemma {T}_stages : forall {vars} : R, 0 < w0 -> 0 < h0 -> 0 < zm0 ->
+  m4l (seg 2 %(L)s) = w2v_mat ROps %(P)s %(T)s (V3 0 1 0) false /\\
+  m4l (seg 3 %(L)s) = ortho_mat_c ROps (w0 / zm0) (h0 / zm0) zsf ztf false /\\
+  m4l (seg 4 %(L)s) = viewport_mat ROps w0 h0 0 0 false /\\
+  m4l (seg 5 %(L)s) = w2v_mat ROps %(P)s %(T)s (V3 0 1 0) true /\\
+  m4l (seg 6 %(L)s) = ortho_mat_c ROps (w0 / zm0) (h0 / zm0) zsi zti true /\\
+  m4l (seg 7 %(L)s) = viewport_mat ROps w0 h0 0 0 true.
+Proof. intros. unfold {T}, zsf, ztf, zsi, zti. cbv [seg firstn skipn Nat.mul Nat.add m4l]. %(unf)s. abstract_sqrts.
+  repeat split; apply M4_ext; %(entry)s. Qed.
 
-(* ... and they are the exact entries for near = 1/10, far = 2000 up to binary64 rounding *)
+(* ... which are the exact entries for near = 1/10, far = 2000 up to binary64 rounding *)
 Lemma {T}_constants :
   Rabs (zsf - ortho_zscale ROps (1 / 10) 2000 false) <= 1 / 10 ^ 12 /\\
   Rabs (ztf - ortho_ztrans ROps (1 / 10) 2000 false) <= 1 / 10 ^ 12 /\\
@@ -153,13 +213,325 @@ Lemma {T}_constants :
   Rabs (zti - ortho_ztrans ROps (1 / 10) 2000 true) <= 1 / 10 ^ 12.
 Proof. unfold zsf, ztf, zsi, zti, ortho_zscale, ortho_ztrans; rops. repeat split; apply Rabs_le; lra. Qed.
 
-(* the traced matrix IS the product of the three stages in order (reversed inverses for inverse=True) *)
-Lemma {T}_three_stages : forall {vars} : R, 0 < w0 -> 0 < h0 -> 0 < zm0 ->
-  {T} ROps {vars} =
-    mlist (mmul ROps (mmul ROps (viewport_mat ROps w0 h0 0 0 false) (ortho_mat_c ROps (w0 / zm0) (h0 / zm0) zsf ztf false))
-                     (w2v_mat ROps %(P)s %(T)s (V3 0 1 0) false))
-    ++ mlist (mmul ROps (mmul ROps (w2v_mat ROps %(P)s %(T)s (V3 0 1 0) true) (ortho_mat_c ROps (w0 / zm0) (h0 / zm0) zsi zti true))
-                        (viewport_mat ROps w0 h0 0 0 true)).
-Proof. intros. rewrite {T}_ok by assumption. reflexivity. Qed.""" % dict(consts, P=P, T=T, unf=_UNF, entry=_ENTRY),
+(* 3. hence the traced canvas matrices are the modelled ones *)
+Lemma {T}_ok : forall {vars} : R, 0 < w0 -> 0 < h0 -> 0 < zm0 ->
+  seg 0 %(L)s = mlist (canvas_mat_c ROps zsf ztf w0 h0 %(P)s %(T)s zm0 false) /\\
+  seg 1 %(L)s = mlist (canvas_mat_c ROps zsi zti w0 h0 %(P)s %(T)s zm0 true).
+Proof.
+  intros {vars} Hw Hh Hz. destruct ({T}_compose {vars}) as [C0 C1].
+  destruct ({T}_stages {vars} Hw Hh Hz) as (S2 & S3 & S4 & S5 & S6 & S7).
+  rewrite C0, C1, S2, S3, S4, S5, S6, S7. split; reflexivity.
+Qed.""".replace("%(L)s", L) % dict(consts, P=P, T=T, unf=_UNF, entry=_ENTRY, gen=_GEN),
         imports=_IMPORTS, timeout=250))
     return ks
+
+
+# ---------------------------------------------------------------------------------------------------------
+def _scale(rng, tier, lo=10):
+    k = 30 if tier == "thorough" else lo
+    return 2.0 ** rng.randint(-k, k)
+
+
+def _cross(a, b):
+    return [a[1] * b[2] - a[2] * b[1], a[2] * b[0] - a[0] * b[2], a[0] * b[1] - a[1] * b[0]]
+
+
+def _camera(rng, tier, up_fixed=None):
+    """position, target, up on dyadic grids; look and up never (nearly) parallel: the cross product of two grid
+    vectors is either exactly zero or at least 1/4 in some component."""
+    sp = _scale(rng, tier)
+    sl = sp * 2.0 ** rng.randint(-8, 8)
+    while True:
+        look = grid_vec(rng)
+        up = list(up_fixed) if up_fixed else grid_vec(rng)
+        if any(_cross(look, up)):
+            break
+    pos = [x * sp for x in grid_vec(rng)] if rng.random() < 0.85 else [0.0, 0.0, 0.0]
+    target = [p + x * sl for p, x in zip(pos, look)]
+    if not up_fixed:
+        su = 2.0 ** rng.randint(-6, 6)
+        up = [x * su for x in up]
+    return pos, target, up
+
+
+def _axis(rng, k=None):
+    v = [0.0, 0.0, 0.0]
+    v[rng.randrange(3) if k is None else k] = rng.choice([1.0, -1.0, 2.0, -0.5, 3.0])
+    return v
+
+
+def gen_cases(rng, n, tier):
+    cases = []
+    for _ in range(n):
+        u, b = rng.random(), rng.random()
+        if u < 0.3:
+            if b < 0.76:
+                pos, target, up = _camera(rng, tier)
+                cases.append({"kind": "w2v", "position": pos, "target": target, "up": up})
+            elif b < 0.88:  # axis-aligned camera, up exactly perpendicular
+                k = rng.randrange(3)
+                look, up = _axis(rng, k), _axis(rng, (k + rng.choice([1, 2])) % 3)
+                pos = [x * _scale(rng, tier) for x in grid_vec(rng)]
+                cases.append({"kind": "w2v_axis", "position": pos, "target": [p + x for p, x in zip(pos, look)], "up": up})
+            else:  # outside the property: NaN expected (exactly computable degeneracies only)
+                pos = [x * _scale(rng, tier) for x in grid_vec(rng)]
+                if rng.random() < 0.5:
+                    cases.append({"kind": "w2v_target_is_position", "position": pos, "target": list(pos), "up": grid_vec(rng)})
+                else:
+                    k = rng.randrange(3)
+                    look = _axis(rng, k)
+                    cases.append({"kind": "w2v_up_parallel", "position": pos, "target": [p + x for p, x in zip(pos, look)],
+                                  "up": _axis(rng, k)})
+        elif u < 0.5:
+            s, s2 = _scale(rng, tier), _scale(rng, tier)
+            w, h = rng.randint(1, 16) / 2 * s, rng.randint(1, 16) / 2 * s
+            near = rng.randint(-4, 12) / 4 * s2
+            far = near + rng.randint(1, 24) / 4 * s2
+            if b < 0.76:
+                cases.append({"kind": "ortho", "w": w, "h": h, "near": near, "far": far})
+            elif b < 0.88:
+                cases.append({"kind": "ortho_unit", "w": 2.0, "h": 2.0, "near": rng.choice([1.0, 0.0, 0.5]), "far": 3.0})
+            else:
+                z = rng.randrange(3)
+                cases.append({"kind": "ortho_zero", "w": 0.0 if z == 0 else w, "h": 0.0 if z == 1 else h, "near": near,
+                              "far": near if z == 2 else far})
+        elif u < 0.7:
+            s = _scale(rng, tier)
+            xr, yb, xl, yt = [rng.randint(-16, 16) / 2 * s for _ in range(4)]
+            if b < 0.76:
+                if xr == xl:
+                    xr = xl + s
+                if yt == yb:
+                    yb = yt + s
+                cases.append({"kind": "viewport", "xr": xr, "yb": yb, "xl": xl, "yt": yt})
+            elif b < 0.88:  # the usual screen rectangle, defaults x_left = y_top = 0
+                cases.append({"kind": "viewport_screen", "xr": float(rng.choice([640, 800, 1, 1920])),
+                              "yb": float(rng.choice([480, 600, 1, 1080])), "xl": 0.0, "yt": 0.0})
+            else:
+                if rng.random() < 0.5:
+                    xr = xl
+                else:
+                    yb = yt
+                cases.append({"kind": "viewport_empty", "xr": xr, "yb": yb, "xl": xl, "yt": yt})
+        else:
+            s = _scale(rng, tier)
+            w, h = rng.randint(1, 32) / 2 * s, rng.randint(1, 32) / 2 * s
+            zoom = rng.randint(1, 16) / 4 * _scale(rng, tier, 6)
+            if b < 0.85:
+                pos, target, _ = _camera(rng, tier, up_fixed=[0.0, 1.0, 0.0])
+                cases.append({"kind": "canvas", "w": w, "h": h, "position": pos, "target": target, "zoom": zoom})
+            else:
+                pos, target, _ = _camera(rng, tier, up_fixed=[0.0, 1.0, 0.0])
+                z = rng.randrange(5)
+                if z == 3:
+                    target = list(pos)
+                if z == 4:
+                    target = [pos[0], pos[1] + rng.choice([1.0, -2.0]), pos[2]]
+                cases.append({"kind": "canvas_degenerate", "w": 0.0 if z == 0 else w, "h": 0.0 if z == 1 else h,
+                              "position": pos, "target": target, "zoom": 0.0 if z == 2 else zoom})
+    return cases
+
+
+def _base(kind):
+    return kind.split("_")[0]
+
+
+def run_impl(c):
+    from polliwog.transform import (view_to_orthographic_projection, viewport_transform, world_to_canvas_orthographic_projection,
+                                    world_to_view)
+    kind = _base(c["kind"])
+
+    def mat(f):
+        r = call_impl(f)
+        if isinstance(r, dict):
+            return r
+        r = np.asarray(r)
+        if r.shape != (4, 4):
+            return {"raise": "OtherError", "msg": "result has shape %r" % (r.shape,)}
+        return [float(x) for x in r.reshape(-1)]
+
+    o = {}
+    with np.errstate(all="ignore"):
+        if kind == "w2v":
+            p, t, u = np.array(c["position"]), np.array(c["target"]), np.array(c["up"])
+            before = [p.copy(), t.copy(), u.copy()]
+            o["fwd"] = mat(lambda: world_to_view(p, t, u))
+            o["inv"] = mat(lambda: world_to_view(p, t, u, inverse=True))
+            o["args_unchanged"] = all(np.array_equal(a, b) for a, b in zip(before, [p, t, u]))
+        elif kind == "ortho":
+            a = (c["w"], c["h"], c["near"], c["far"])
+            o["fwd"] = mat(lambda: view_to_orthographic_projection(*a))
+            o["inv"] = mat(lambda: view_to_orthographic_projection(*a, inverse=True))
+        elif kind == "viewport":
+            a = (c["xr"], c["yb"], c["xl"], c["yt"])
+            o["fwd"] = mat(lambda: viewport_transform(*a))
+            o["inv"] = mat(lambda: viewport_transform(*a, inverse=True))
+        else:
+            p, t = np.array(c["position"]), np.array(c["target"])
+            before = [p.copy(), t.copy()]
+            w, h, zoom = c["w"], c["h"], c["zoom"]
+            o["fwd"] = mat(lambda: world_to_canvas_orthographic_projection(w, h, p, t, zoom=zoom))
+            o["inv"] = mat(lambda: world_to_canvas_orthographic_projection(w, h, p, t, zoom=zoom, inverse=True))
+            o["args_unchanged"] = all(np.array_equal(a, b) for a, b in zip(before, [p, t]))
+            # the three stages as the public functions return them (for the composition clause)
+            for name, inverse in (("stages_fwd", False), ("stages_inv", True)):
+                o[name] = call_impl(lambda: [
+                    mat(lambda: world_to_view(p, t, inverse=inverse)),
+                    mat(lambda: view_to_orthographic_projection(w / zoom, h / zoom, inverse=inverse)),
+                    mat(lambda: viewport_transform(w, h, inverse=inverse))])
+    # counted as trivial by the driver: an exception or NaN in either direction
+    if any(isinstance(o[d], dict) or not all(np.isfinite(o[d])) for d in ("fwd", "inv")):
+        o["raise"] = "degenerate"
+    return o
+
+
+def _obs(x):
+    if isinstance(x, dict):
+        return "(Raise %s)" % x["raise"]
+    return "(Ok [%s])" % "; ".join(fl(v) for v in x)
+
+
+def coq_case(c, o):
+    kind = _base(c["kind"])
+    f, i = _obs(o["fwd"]), _obs(o["inv"])
+    if kind == "w2v":
+        return "CW2V %s %s %s %s %s" % (qv(c["position"]), qv(c["target"]), qv(c["up"]), f, i)
+    if kind == "ortho":
+        return "COrtho %s %s %s %s %s %s" % (q(c["w"]), q(c["h"]), q(c["near"]), q(c["far"]), f, i)
+    if kind == "viewport":
+        return "CViewport %s %s %s %s %s %s" % (q(c["xr"]), q(c["yb"]), q(c["xl"]), q(c["yt"]), f, i)
+    return "CCanvas %s %s %s %s %s %s %s" % (q(c["w"]), q(c["h"]), qv(c["position"]), qv(c["target"]), q(c["zoom"]), f, i)
+
+
+# ---------------------------------------------------------------------------------------------------------
+# oracle: the property text on the implementation's own matrices, exact rational arithmetic, one-sided tolerances
+TOL = Fr(1, 10 ** 7)
+
+
+def _M(l):
+    return [[Fr(float(l[4 * i + j])) for j in range(4)] for i in range(4)]
+
+
+def _finite(l):
+    return all(np.isfinite(x) for x in l)
+
+
+def _prod_check(a, b, want, what):
+    """a @ b == want entrywise, tolerance relative to sum_k |a_ik||b_kj| (the size of the terms that were added)"""
+    for i in range(4):
+        for j in range(4):
+            terms = [a[i][k] * b[k][j] for k in range(4)]
+            if abs(sum(terms) - want[i][j]) > TOL * max(1, abs(want[i][j]), sum(abs(x) for x in terms)):
+                return "%s: entry (%d,%d) is %s, expected %s" % (what, i, j, float(sum(terms)), float(want[i][j]))
+    return None
+
+
+I4 = [[Fr(int(i == j)) for j in range(4)] for i in range(4)]
+
+
+def _apply(m, p, w=1):
+    v = list(p) + [Fr(w)]
+    res = [sum(m[i][k] * v[k] for k in range(4)) for i in range(3)]
+    mag = [sum(abs(m[i][k] * v[k]) for k in range(4)) for i in range(3)]
+    return res, mag
+
+
+def _near(x, want, mag):
+    return abs(x - want) <= TOL * max(1, abs(want), mag)
+
+
+def _inverse_clause(f, i, name):
+    return (_prod_check(i, f, I4, "%s(inverse=True) @ %s(inverse=False) is not the identity" % (name, name))
+            or _prod_check(f, i, I4, "%s(inverse=False) @ %s(inverse=True) is not the identity" % (name, name)))
+
+
+def oracle(c, o):
+    kind = _base(c["kind"])
+    degenerate = c["kind"] in ("w2v_target_is_position", "w2v_up_parallel", "ortho_zero", "viewport_empty", "canvas_degenerate")
+    if degenerate:
+        return None  # outside the quantifier of the property (mirrored by the model, checked by the correspondence)
+    for d in ("fwd", "inv"):
+        if isinstance(o[d], dict):
+            return "unexpected exception %s for inverse=%s: %s" % (o[d]["raise"], d == "inv", o[d].get("msg"))
+        if not _finite(o[d]):
+            return "non-finite entries for inverse=%s" % (d == "inv")
+    if o.get("args_unchanged") is False:
+        return "argument array was modified"
+    f, i = _M(o["fwd"]), _M(o["inv"])
+    if kind == "w2v":
+        r = _inverse_clause(f, i, "world_to_view")
+        if r:
+            return r
+        p, t, u = [[Fr(float(x)) for x in c[k]] for k in ("position", "target", "up")]
+        if f[3] != [0, 0, 0, 1]:
+            return "world_to_view: last row is not 0 0 0 1"
+        for a in range(3):
+            for b in range(3):
+                s = sum(f[k][a] * f[k][b] for k in range(3))
+                if abs(s - (1 if a == b else 0)) > TOL:
+                    return "world_to_view is not distance preserving: (R^T R)[%d,%d] = %s" % (a, b, float(s))
+        img, mag = _apply(f, p)
+        if not all(_near(img[k], 0, mag[k]) for k in range(3)):
+            return "world_to_view does not send the camera position to the origin: %s" % [float(x) for x in img]
+        img, mag = _apply(f, t)
+        d2 = sum((a - b) ** 2 for a, b in zip(t, p))
+        if not (_near(img[0], 0, mag[0]) and _near(img[1], 0, mag[1])):
+            return "world_to_view does not send the target onto the z axis: %s" % [float(x) for x in img]
+        if img[2] <= 0:
+            return "world_to_view sends the target to negative z: %s" % float(img[2])
+        if abs(img[2] ** 2 - d2) > 4 * TOL * max(d2, mag[2] ** 2):
+            return "target is not at its true distance: z=%s, distance^2=%s" % (float(img[2]), float(d2))
+        img, mag = _apply(f, u, 0)
+        if not _near(img[0], 0, mag[0]) or abs(img[0]) > TOL * sum(abs(x) for x in u):
+            return "up is not mapped into the y-z plane: x=%s" % float(img[0])
+        if img[1] <= 0:
+            return "up is mapped to non-positive y: %s" % float(img[1])
+        return None
+    if kind == "ortho":
+        r = _inverse_clause(f, i, "view_to_orthographic_projection")
+        if r:
+            return r
+        w, h, n, fa = [Fr(float(c[k])) for k in ("w", "h", "near", "far")]
+        for sx in (-1, 1):
+            for sy in (-1, 1):
+                for z, wz in ((-n, -1), (-fa, 1)):
+                    img, mag = _apply(f, [sx * w / 2, sy * h / 2, z])
+                    for k, want in enumerate((sx, sy, wz)):
+                        if not _near(img[k], want, mag[k]):
+                            return ("orthographic: corner (%s,%s,%s) goes to %s, expected %s"
+                                    % (float(sx * w / 2), float(sy * h / 2), float(z), [float(x) for x in img], [sx, sy, wz]))
+        return None
+    if kind == "viewport":
+        xr, yb, xl, yt = [Fr(float(c[k])) for k in ("xr", "yb", "xl", "yt")]
+        if xr != xl and yt != yb:
+            r = _inverse_clause(f, i, "viewport_transform")
+            if r:
+                return r
+        for sx, wx in ((-1, xl), (1, xr)):
+            for sy, wy in ((-1, yb), (1, yt)):
+                for z, wz in ((-1, 0), (1, 1)):
+                    img, mag = _apply(f, [Fr(sx), Fr(sy), Fr(z)])
+                    for k, want in enumerate((wx, wy, wz)):
+                        if not _near(img[k], want, mag[k]):
+                            return ("viewport: corner (%d,%d,%d) goes to %s, expected %s"
+                                    % (sx, sy, z, [float(x) for x in img], [float(wx), float(wy), wz]))
+        return None
+    # canvas
+    r = _inverse_clause(f, i, "world_to_canvas_orthographic_projection")
+    if r:
+        return r
+    for name, m, order in (("stages_fwd", f, (2, 1, 0)), ("stages_inv", i, (0, 1, 2))):
+        st = o[name]
+        if isinstance(st, dict) or any(isinstance(s, dict) for s in st):
+            return "a stage raised although the canvas projection did not"
+        a, b, cc = [_M(st[k]) for k in order]
+        ab = [[sum(a[x][k] * b[k][y] for k in range(4)) for y in range(4)] for x in range(4)]
+        r = _prod_check(ab, cc, m, "canvas projection (%s) is not the three stages composed in order" %
+                        ("inverse=False" if name == "stages_fwd" else "inverse=True"))
+        if r:
+            return r
+    return None
+
+
+def classify(c, o, failure, disagrees):
+    return None
